@@ -501,7 +501,7 @@ class MailboxSet(MailboxSetInterface[MailboxData]):
     async def add_mailbox(self, name: str) -> ObjectId:
         try:
             self._layout.add_folder(name, self.delimiter)
-        except FileExistsError as exc:
+        except (FileExistsError, FileNotFoundError) as exc:
             raise ValueError(name) from exc
         path = self._layout.get_path(name, self.delimiter)
         async with UidList.with_init(path) as uidl:
@@ -521,5 +521,13 @@ class MailboxSet(MailboxSetInterface[MailboxData]):
     async def rename_mailbox(self, before: str, after: str) -> None:
         if before == 'INBOX':
             raise NotSupportedError()  # TODO
-        else:
+        try:
+            self._layout.get_path(after, self.delimiter)
+        except FileNotFoundError as exc:
+            raise ValueError(after) from exc
+        try:
             self._layout.rename_folder(before, after, self.delimiter)
+        except FileNotFoundError as exc:
+            raise KeyError(before) from exc
+        except FileExistsError as exc:
+            raise ValueError(after) from exc
